@@ -22,6 +22,9 @@ impl Monitor for C16 {
     fn on_seal(&mut self, w: &World, ev: &SealEvent) {
         if ev.panic.is_some() || ev.phases.len() < 8 {
             self.rep.count("seal did not complete (left to C09)");
+            if let Some(p) = &ev.panic {
+                self.rep.note(&format!("seal panicked (C09's business): {} @ {} [{}] case_seed={}", p.message, p.location, p.origin, self.case_seed));
+            }
             return;
         }
         self.rep.eval();
